@@ -829,6 +829,14 @@ fn main() {
             );
             0
         }
+        Some("noncanon") => {
+            for l in codec::ENCODING_LABELS {
+                let e = codec::encoding(l);
+                let v = codec::noncanonical_sequences(e, 2000);
+                println!("{l}: {} non-canonical 1-2 byte forms, e.g. {:02x?}", v.len(), v.iter().take(4).collect::<Vec<_>>());
+            }
+            0
+        }
         Some("replay") => replay(&args[2]),
         Some("gen") => {
             // pasfmt-sim gen <prop> <tier> <seed> <run>: dump the cases of one run
